@@ -13,6 +13,7 @@ import (
 	"fmt"
 	"os"
 	"strconv"
+	"sync"
 )
 
 // Input is one recorded input value (creation order).
@@ -59,7 +60,11 @@ func LoadJSON(data []byte) error {
 // State returns the state of the current native run.
 func State() *Replay { return cur }
 
+var mu sync.Mutex
+
 func next(name, kind string) uint64 {
+	mu.Lock()
+	defer mu.Unlock()
 	if cur.pos >= len(cur.Inputs) {
 		// inputs past the recorded ones were never constrained: any value will do
 		cur.pos++
@@ -156,7 +161,9 @@ func Assume(b bool) {
 // Assert states an obligation.
 func Assert(b bool, label string) {
 	if !b {
+		mu.Lock()
 		cur.Failed = append(cur.Failed, label)
+		mu.Unlock()
 	}
 }
 
